@@ -131,6 +131,13 @@ def edit(ctx, p):
     ctx.require(nets.same(keep, nets.snap(b, counter=True)), "a structural edit of one network is visible in the other")
 
 
+@harness("C07.numeric")
+def numeric(ctx, p):
+    """Fresh ids on both sides for integer-like ids of other numeric types
+    (concrete pool; shares C04's harness)."""
+    c04.numeric(ctx, p)
+
+
 def spec(tier, seed):
     if tier == "quick":
         sh = {"H": shapes.shapes_H_upto(2, 2), "D": shapes.shapes_D_upto(2, 1) + shapes.shapes_D(1, 2), "S": shapes.shapes_S_upto(3, (0,))}
@@ -148,6 +155,8 @@ def spec(tier, seed):
                     if op in HEAVY[cls] and tier == "quick" and not op.endswith(("_2", "_5")):
                         continue
                     units.append(("C07.edit", {"cls": cls, "shape": s, "how": how, "op": op}))
+    for cls in "HDS":
+        units.append(("C07.numeric", {"cls": cls, "shape": None, "how": "numeric ids"}))
     return {
         "units": units,
         "caps": {"paths": 100000, "wall": 600},
